@@ -22,7 +22,7 @@ from harness.lib import q, ql, b, zzl
 
 TOL_DENS = Fraction(1, 10 ** 7)
 HEADER = ('From Coq Require Import ZArith QArith List.\n'
-          'From Dadi Require Import Base.Num Base.NumQ Base.NumD Model.Equilibrium Model.Coalescent Model.EquilibriumCheck.\n'
+          'From Dadi Require Import Base.Num Base.NumQ Base.NumD Model.DFast Model.Equilibrium Model.Coalescent Model.EquilibriumCheck.\n'
           'Import ListNotations.\nOpen Scope Q_scope.')
 KEY_NU = 'phi_1D:gamma-not-multiplied-by-nu'
 KEY_TINY = 'phi_1D_genic:tiny-gamma-cancellation'
@@ -260,7 +260,7 @@ def gen_histories(ctx):
             c['hist'] = [{'kind': 'exp', 'nu_start': nuB, 'nu_end': nuF, 'T': T}]; c['params'] = [nuB, nuF, T]
         elif via == 'equil':
             g = lib.dyadic(rng, -20, 8, 3)
-            c['sel'] = {'g': g, 'scale': 1.0}; c['params'] = [g]
+            c['sel'] = {'g': g, 'scale': 1.0, 'res': abs(g)}; c['params'] = [g]
         elif via == 'two_epoch_sel':
             g = lib.dyadic(rng, -20, 8, 3)
             r = rng.random()
@@ -270,12 +270,16 @@ def gen_histories(ctx):
             elif r < 0.6:
                 # same size: the equilibrium stays the equilibrium
                 T = numgen.logdy(rng, 0.005, 3)
-                c['sel'] = {'g': g, 'scale': 1.0}; c['params'] = [1.0, T, g]
+                c['sel'] = {'g': g, 'scale': 1.0, 'res': abs(g)}; c['params'] = [1.0, T, g]
             else:
                 # long after the change (T/nu >= 25): the new equilibrium, effective coefficient gamma*nu, scale nu
                 nu = numgen.logdy(rng, 0.05, 0.11); T = numgen.logdy(rng, 2.8, 3.0)
-                g = lib.dyadic(rng, -100, 60, 2)
-                c['sel'] = {'g': g * nu, 'scale': nu}; c['params'] = [nu, T, g]
+                g = lib.dyadic(rng, -40, 30, 2)
+                c['sel'] = {'g': g * nu, 'scale': nu, 'res': max(abs(g * nu), abs(g) / 4)}; c['params'] = [nu, T, g]
+        if 'sel' in c:
+            # the selected density varies on the scale 1/(2|g|): the grid must resolve it (grid error, not time-step error)
+            p0 = max(n, 40) + int(8 * c['sel']['res']) + rng.randint(0, 30)
+            c['pts_l'] = [p0, p0 + 10, p0 + 20]; c['coarse'] = False
         c['id'] = len(cases)
         cases.append(c)
     return cases
@@ -361,6 +365,8 @@ def history_part(ctx):
             continue
         e3, e4 = errs[c['id']]
         p0 = c['pts_l'][0]
+        if os.environ.get('C01_DEBUG'):
+            print('HIST', c['via'], c['n'], c['pts_l'], c['extrap'], c.get('params', c.get('hist')), c.get('sel'), 'err %.4g %.4g' % (e3, e4))
         desc = 'via=%s n=%d pts=%r extrap=%s %s' % (c['via'], c['n'], c['pts_l'], c['extrap'],
                                                      ('params=%r' % c['params']) if 'params' in c else 'hist=%r' % [(e.get('nu', (e.get('nu_start'), e.get('nu_end'))), e['T']) for e in c['hist']])
         ctx.case(signature=('hist', json.dumps(c, sort_keys=True)), sample={'case': c, 'err_1e-3': e3, 'err_1e-4': e4} if c['id'] % 11 == 0 else None)
@@ -400,13 +406,15 @@ def gen_stationarity(ctx):
             p = dict(nu=nu, gamma=lib.dyadic(rng, -60, 30, 2) / max(nu, 1.0) if rng.random() < 0.9 else 0.0,
                      h=rng.choice([0.5, 0.5, 0.0, 1.0, lib.dyadic(rng, 0, 1, 4)]),
                      beta=numgen.logdy(rng, 0.2, 5) if rng.random() < 0.4 else 1.0, theta0=numgen.logdy(rng, 0.1, 10))
-        p.update(kind='stat', n=12, pts_l=[40, 80], T=p['nu'] * numgen.logdy(rng, 0.3, 1.5), with_prefix=(p['nu'] != 1 and p['gamma'] != 0), id=len(cases))
+        p.update(kind='stat', n=12, pts_l=[40, 80, 160], T=p['nu'] * numgen.logdy(rng, 0.3, 1.5), with_prefix=(p['nu'] != 1 and p['gamma'] != 0), id=len(cases))
         cases.append(p)
     return cases
 
 def drift(before, after):
+    """(largest change relative to the largest entry, largest change relative to the entry itself)"""
     s = max(before[1:-1])
-    return max(abs(a - bb) / max(bb, 1e-6 * s) for a, bb in zip(after[1:-1], before[1:-1]))
+    return (max(abs(a - bb) for a, bb in zip(after[1:-1], before[1:-1])) / s,
+            max(abs(a - bb) / max(bb, 1e-12 * s) for a, bb in zip(after[1:-1], before[1:-1])))
 
 def stationarity_part(ctx):
     cases = gen_stationarity(ctx)
@@ -427,27 +435,30 @@ def stationarity_part(ctx):
             ctx.obligation('stationarity case %d runs' % c['id'], False, 'predicate', r['error'])
             ctx.violation('phi_1D / one_pop raised %s (%s)' % (r['error'], desc), data={'case': c, 'impl': r})
             continue
-        d40 = drift(r['40']['cur']['before'], r['40']['cur']['after'])
-        d80 = drift(r['80']['cur']['before'], r['80']['cur']['after'])
-        ok = d80 <= 0.02 and d80 <= max(0.6 * d40, 2e-3) and r['80']['cur']['finite']
-        ctx.case(signature=('stat', json.dumps(c, sort_keys=True)), sample={'case': c, 'drift40': d40, 'drift80': d80} if c['id'] % 5 == 0 else None)
-        ctx.obligation('equilibrium density stationary under one_pop up to a shrinking grid error: %s' % desc, ok, 'predicate', 'drift %.3g (40 pts) %.3g (80 pts)' % (d40, d80))
+        (a40, r40), (a80, r80), (a160, r160) = [drift(r[p]['cur']['before'], r[p]['cur']['after']) for p in ('40', '80', '160')]
+        # grid error: x4 finer grid -> 1/16 (second order; observed) or 1/4 (first order: the beta <> 1 boundary term); demand 0.35 on the
+        # scale of the largest entry and a decrease entry by entry (entries 1e-10 of the largest included)
+        ok = (a160 <= 0.01 and a160 <= 0.35 * a40 + 1e-7 and r160 <= 0.7 * min(r40, 1.0) + 1e-6 and r['160']['cur']['finite'])
+        if os.environ.get('C01_DEBUG'):
+            print('STAT', desc, 'abs %.3g %.3g %.3g  rel %.3g %.3g %.3g' % (a40, a80, a160, r40, r80, r160), ok)
+        ctx.case(signature=('stat', json.dumps(c, sort_keys=True)), sample={'case': c, 'drift_abs': [a40, a80, a160], 'drift_rel': [r40, r80, r160]} if c['id'] % 5 == 0 else None)
+        ctx.obligation('equilibrium density stationary under one_pop up to a shrinking grid error: %s' % desc, ok, 'predicate',
+                       'drift/max entry %.3g, %.3g, %.3g; per entry %.3g, %.3g, %.3g at 40, 80, 160 points' % (a40, a80, a160, r40, r80, r160))
         if not ok:
             # which input class?  the nu factor of the effective selection coefficient is the known way to break this
             key = None
-            if c['nu'] != 1 and c['gamma'] != 0 and 'prefix' in r['80']:
-                dp = drift(r['80']['prefix']['before'], r['80']['prefix']['after'])
-                same_as_prefix = max(abs(a - bb) for a, bb in zip(r['80']['cur']['before'], r['80']['prefix']['before'])) <= 1e-9 * max(r['80']['cur']['before'][1:-1])
+            if c['nu'] != 1 and c['gamma'] != 0 and 'prefix' in r['160']:
+                same_as_prefix = max(abs(a - bb) for a, bb in zip(r['160']['cur']['before'], r['160']['prefix']['before'])) <= 1e-9 * max(r['160']['cur']['before'][1:-1])
                 if same_as_prefix:
                     key = KEY_NU
             ctx.obligations[-1]['known_key'] = key
-            ctx.violation('phi_1D(%s) is not stationary under one_pop with the same nu, gamma, h, beta: spectrum (n=12) drifts by %.3g at 40 points and %.3g at 80 points over T=%r%s' % (
-                desc, d40, d80, c['T'], '; the density equals the gamma-not-times-nu form' if key else ''), data={'case': c, 'impl': r}, key=key)
-        if 'prefix' in r['80']:
-            seen_old.append((c['nu'], c['gamma'], drift(r['80']['prefix']['before'], r['80']['prefix']['after']), d80))
+            ctx.violation('phi_1D(%s) is not stationary under one_pop with the same nu, gamma, h, beta: over T=%r the spectrum (n=12) moves by %.3g / %.3g / %.3g of its largest entry at 40 / 80 / 160 grid points (no second-order decay)%s' % (
+                desc, c['T'], a40, a80, a160, '; the density equals the gamma-not-times-nu form' if key else ''), data={'case': c, 'impl': r}, key=key)
+        if 'prefix' in r['160']:
+            seen_old.append((c['nu'], c['gamma'], drift(r['160']['prefix']['before'], r['160']['prefix']['after'])[0], a160))
     if seen_old:
         big = max(seen_old, key=lambda t: t[2])
-        ctx.notes.append('sensitivity: the density with selection strength gamma instead of gamma*nu (nu=%r, gamma=%r) drifts by %.3g under one_pop, the current one by %.3g' % big)
+        ctx.notes.append('sensitivity: the density with selection strength gamma instead of gamma*nu (nu=%r, gamma=%r) moves by %.3g of its largest entry under one_pop, the current one by %.3g' % big)
         ctx.obligation('the stationarity predicate distinguishes gamma from gamma*nu (drift of the gamma-only form %.3g >> %.3g)' % (big[2], big[3]), big[2] > 10 * max(big[3], 1e-3), 'predicate')
 
 def run(ctx):
